@@ -18,7 +18,7 @@ RULE = (
     "actually rewrote (compiled problem differs from the original); distinct by (problem, compiler, compiled plan)."
 )
 SHARDS = {"quick": 16, "thorough": 16}
-CASE_TIMEOUT_S = 30  # CPU seconds per case; DNF / powerset compilations that explode are inconclusive, not judged
+CASE_TIMEOUT_S = 12  # CPU seconds per case; DNF / powerset compilations that explode are inconclusive, not judged
 
 
 def check(ctx, case, k=3, max_nodes=1500):
@@ -113,7 +113,7 @@ def shard(ctx):
 
     only = os.environ.get("VERIF_ONLY")  # experiments: restrict to some compilers
     strat = comp.cases(names=only.split(","), with_pipelines=False) if only else comp.cases()
-    ctx.run_hypothesis(strat, oracle, ctx.scale(3200, 24000))
+    ctx.run_hypothesis(strat, oracle, ctx.scale(8000, 40000))
 
 
 def replay(ctx, case):
